@@ -79,6 +79,8 @@ Fixpoint repr (W : world) (v : value) {struct v} : pyexpr :=
      (str|float|bytes, Enum)) is also an int/str/float/bytes; it is a [VEnum] here (the harness
      classifies Enum members first) and is written as a member, never through literal_value. *)
   | VEnum c m => EName (snd c ++ [m])                (* f"{__qualname__}.{name}" *)
+  (* name is None or not in __members__: f"{__qualname__}({literal_value(value)})" *)
+  | VFlag c z => ECall (snd c) [EInt z] []
   | VList l => EList (map (repr W) l)
   | VTuple l => ETuple (map (repr W) l)               (* "()" or "(\n a,\n b,\n)" *)
   | VSet fz l =>
@@ -138,6 +140,7 @@ Definition type_of (v : value) : option cref :=
   | VPeriod _ => Some (m_datatype, [lit "XmlPeriod"])
   | VStd k _ => Some (lit "datetime", [std_name k])
   | VEnum c _ => Some c
+  | VFlag c _ => Some c
   | VObj c _ => Some c
   | _ => None
   end.
@@ -238,6 +241,14 @@ Definition wf_local (W : world) (v : value) : bool :=
   | VEnum c m => enum_has W c m && match lib_kind c with None => true | Some _ => false end
                  && match snd c with [] => false | _ => true end
                  && negb (str_eqb (fst c) m_stdlib_datetime) && nospace (fst c)
+  | VFlag c z =>
+      match find_class W c with
+      | Some (KEnum ms (Some vals)) => match flag_member ms vals z with None => true | Some _ => false end
+      | _ => false
+      end
+      && match lib_kind c with None => true | Some _ => false end
+      && match snd c with [] => false | _ => true end
+      && negb (str_eqb (fst c) m_stdlib_datetime) && nospace (fst c)
   | VDict kv => forallb scalar_key (map fst kv) && keys_distinct (map fst kv)
   | VSet _ l => forallb scalar_key l && keys_distinct l
   | VObj c fs =>
